@@ -55,6 +55,17 @@ def collision_programs(tier):
             {},
         )
     )
+    # a convex object wholly inside the solid material of a non-convex mesh object (no surface contact)
+    progs.append(
+        (
+            "collide:inside-nonconvex",
+            "import trimesh, shapely.geometry\n"
+            "lmesh = trimesh.creation.extrude_polygon(shapely.geometry.Polygon([(-3, -3), (3, -3), (3, 0), (0, 0), (0, 3), (-3, 3)]), 2)\n"
+            "ego = new Object at (0, 0, 0), with shape MeshShape(lmesh), with width 6, with length 6, with height 2, facing Uniform(0, 90 deg)\n"
+            "b = new Object at Uniform((-1.5, -1.5, 0), (1.5, 1.5, 0), (-1.5, 1.5, 0), (1.6, -1.4, 0), (6, 6, 0)), with width 0.5, with length 0.5, with height 0.5, with allowCollisions Uniform(False, True)\n",
+            {},
+        )
+    )
     # containers: workspace box, regionContainedIn, polygon with hole
     progs.append(
         (
